@@ -1,5 +1,6 @@
 //! Harness binary for the incremental-font-transfer / klippa dependency cone.
 mod c18;
+mod c18_cff;
 mod c19;
 mod c19_f1;
 mod synth;
